@@ -1,10 +1,10 @@
 SPECIFICATION Spec
 CONSTANTS
-  MinFields = 3
-  MaxFields = 3
-  MethodLists = "all6"
-  Exported = {TRUE}
-  Tagged = {TRUE}
+  MinFields = 1
+  MaxFields = 2
+  MethodLists = "q2"
+  Exported = {FALSE}
+  Tagged = {FALSE}
   Preludes = {"none"}
-  Shadows = {FALSE}
+  Shadows = {TRUE}
 INVARIANTS TypeOK TwinSame GroupingIrrelevant OutputShape Export
